@@ -127,7 +127,9 @@ let run_script (type s) (step : s -> sev -> s) (init : s) (crashed : s -> bool)
           if head.[0] = 'R' then ev (WriteErr (n_of_int k));
           ev (Close (n_of_int k)); Hashtbl.replace status k "gone"
         end
-      | 'P' | 'Q' ->
+      | 'P' | 'Q' | 'U' ->
+        (* U = the claim of a key whose owner has just gone (the runner repeats a refused attempt until the release is
+           observable): for the model, whose Close is immediate, a probe on a new connection *)
         let k = conn_of head in
         ensure k; ev (Data (n_of_int k, n_of_int !clock, data));
         let r = seen k !st in
